@@ -95,13 +95,16 @@ CHECKS["C15"] = dict(
           "contrary results and must happen by threshold+1. part concurrent: 2..8 goroutines mutate disjoint address ranges while readers "
           "assert sorted / single-tier / ever-member snapshots; the quiescent view is consistent. Non-trivial: history has a type change "
           "of an address, a mark on a retired object or a removal with the other type (set); a contrary run was interrupted (hysteresis); "
-          "all concurrent cases. Distinct by canonical JSON."),
+          "all concurrent cases. part markrace: a health mark (MarkHostHealthy on an unhealthy member / MarkHostUnhealthy) released at the same "
+          "instant as Remove(fresh object) / ReplaceAll / Add(replacing object) of the same address, 40000 (thorough 200000) pairs per "
+          "case: at quiescence Healthy() contains only current members and every healthy member. Distinct by canonical JSON."),
     assumptions=["added hosts are always fresh objects (every production caller creates them with host.NewWithType)",
                  "'>' vs '>=' in the threshold comparison both satisfy 'at least threshold'"],
     parts=[
         dict(name="set", test="TestSetModel", kind="rapid", checks={"quick": 6000, "thorough": 300000}, shards=16, timeout={"quick": 600, "thorough": 3000}),
         dict(name="hysteresis", test="TestHysteresis", kind="rapid", checks={"quick": 3000, "thorough": 150000}, shards=8, timeout={"quick": 600, "thorough": 3000}),
         dict(name="concurrent", test="TestSetConcurrent", kind="rapid", checks={"quick": 40, "thorough": 2000}, shards=4, timeout={"quick": 600, "thorough": 3000}),
+        dict(name="markrace", test="TestMarkRace", kind="rapid", checks={"quick": 6, "thorough": 40}, shards=16, timeout={"quick": 600, "thorough": 3000}, shrinktime="5s"),
     ],
 )
 
